@@ -164,6 +164,28 @@ def run(ctx):
             ctx.violation("oracle/random-mirp/explicit-seed", f"RandomMIRP(seed={seed}) gives different instances for different prior generator states",
                           {"seed": seed, "call": "dataclasses.replace(get_generator(1,1,40), seed=seed).get_random_mirp()"}, True)
 
+    # a generator whose time horizon is itself a distribution (allowed by RandomMIRP's signature):
+    # get_random_mirp(reset_seed=True), called after other instances were produced, must reproduce
+    # the first instance made after construction -- every draw has to come after the re-seed
+    from scipy.stats import uniform
+    from vrpqubo.tools.sampling import WrapperSampler
+    for seed in ([0, 3] if ctx.quick else list(range(0, 12))):
+        base = get_generator(1, 1, 40)
+        gen = dataclasses.replace(base, time_horizon=WrapperSampler(uniform(loc=35, scale=10)), seed=seed)
+        try:
+            first = fp.digest(fp.mirp_snapshot(gen.get_random_mirp()))
+            gen.get_random_mirp()
+            np.random.random(5)
+            again = fp.digest(fp.mirp_snapshot(gen.get_random_mirp(reset_seed=True)))
+            n_c += 1
+            if first != again:
+                ctx.violation("oracle/random-mirp/reset-seed", f"RandomMIRP(seed={seed}, time_horizon=<distribution>): get_random_mirp(reset_seed=True) "
+                              "does not reproduce the first instance after construction",
+                              {"seed": seed, "call": "gen = dataclasses.replace(get_generator(1,1,40), time_horizon=WrapperSampler(uniform(35,10)), seed=seed); "
+                                                     "gen.get_random_mirp(); gen.get_random_mirp(); gen.get_random_mirp(reset_seed=True)"}, True)
+        except Exception as e:  # noqa: a random horizon may produce an instance the builder rejects
+            ctx.cov.setdefault("build_errors", []).append(f"random-horizon seed {seed}: {exc_cls(e)}")
+
     ctx.count(evaluations=n_mon + n_cmp + n_c, nontrivial=n_cmp, traces=n_mon)
     ctx.cov["input_distribution"] = {"monitored_builds": n_mon, "child_environments": [list(map(str, e)) for e in envs],
                                      "tasks": tasks, "component_comparisons": n_cmp, "same_process_seed_runs": n_c}
